@@ -134,6 +134,11 @@ func c07Pairs(tier string) []c07Pair {
 			add("operand-shared-other-fails", "("+bad+") || ("+good+")", good)
 		}
 	}
+	// different members of ONE call result
+	add("member-of-call-result", "F.GetSub().V == 1", `F.GetSub().S == "ab"`)
+	add("member-of-call-result", "F.GetSub().V + 1", "F.GetSub().V + 2")
+	add("member-of-call-result", `F.GetSub().S + "!"`, `F.GetSub().S.Len() + 0`)
+	add("member-of-call-result", "F.GetSub().V == 2", "F.GetSub().Twice() == 2")
 	// operand order
 	add("operand-order", "F.I - F.I2", "F.I2 - F.I")
 	add("operand-order", "F.I < F.I2", "F.I2 < F.I")
